@@ -12,13 +12,13 @@ import (
 )
 
 // C15 — client-supplied return targets never redirect off-site. E2: every
-// string of up to 3 (quick) / 4 (thorough) tokens over a 24-token alphabet x
+// string of up to 3 (quick) / 4 (thorough) tokens over a 25-token alphabet x
 // delivery (form field / query) x response mode x site scheme on the password
 // login; the 3-token set on the OTP, TOTP, SMS flows and on the OAuth2 round
 // trip. The emitted Location header / JSON location is resolved with a
 // browser-faithful resolver (urlres.go) against the login page URL.
 
-var c15Sigma = []string{"/", "\\", "//", "http:", "https:", "HtTpS:", "javascript:", "evil.test", "site.test", "@", ":", ".", "a", "?", "#", "%2f", "%5c", "\t", "\n", " ", "./", "../", "\x01", "\u00a0"}
+var c15Sigma = []string{"/", "\\", "//", "http:", "https:", "HtTpS:", "javascript:", "evil.test", "site.test", "@", ":", ".", "a", "?", "#", "%2f", "%5c", "\t", "\n", " ", "./", "../", "\x01", "\u00a0", "/../"}
 
 type c15Flow struct {
 	name    string
@@ -114,7 +114,7 @@ func c15Strings(maxTok int, first int) []string {
 		if depth == maxTok {
 			// the longest strings are also tried with the foreign host appended (one more token, fixed)
 			if !strings.HasSuffix(prefix, "evil.test") {
-				out = append(out, prefix+"evil.test", prefix+"evil.test/?a=1")
+				out = append(out, prefix+"evil.test", prefix+"evil.test/?a=1", prefix+"\\evil.test")
 			}
 			return
 		}
@@ -310,7 +310,7 @@ func c15Units(tier string) []engine.Unit {
 func init() {
 	engine.Register(&engine.Property{
 		ID: "C15", Level: "exploration",
-		Rule:        "every string of up to 3 (4 in the thorough tier for the login and OAuth2 flows) tokens (the longest ones also with the foreign host, and the host plus a query of its own, appended) over a 24-token alphabet (slashes, backslashes, schemes in mixed case, javascript:, hosts, @ : . ? #, percent-encoded separators, ./ and ../, TAB, LF, space, the C0 control 0x01, the non-ASCII space U+00A0) as the return target of each flow that follows it (password, OTP, TOTP, SMS, hijack round trip, OAuth2 round trip), delivered as form field, as query, and as a repeated parameter next to a harmless value (either order; form field vs query), form and JSON modes, http and https site; Location / JSON location resolved with a WHATWG-faithful resolver; classes = (target class => response class) pairs",
+		Rule:        "every string of up to 3 (4 in the thorough tier for the login and OAuth2 flows) tokens (the longest ones also with the foreign host, the host plus a query of its own, and backslash + host appended) over a 25-token alphabet (slashes, backslashes, schemes in mixed case, javascript:, hosts, @ : . ? #, percent-encoded separators, ./ ../ and /../, TAB, LF, space, the C0 control 0x01, the non-ASCII space U+00A0) as the return target of each flow that follows it (password, OTP, TOTP, SMS, hijack round trip, OAuth2 round trip), delivered as form field, as query, and as a repeated parameter next to a harmless value (either order; form field vs query), form and JSON modes, http and https site; Location / JSON location resolved with a WHATWG-faithful resolver; classes = (target class => response class) pairs",
 		Units:       c15Units,
 		Need:        []string{"target:off-site-host=>response:same-site", "target:same-site=>response:same-site"},
 		Assumptions: []string{"the resolver is conservative: unparsable values count as same-site", "honouring or ignoring a same-site value are both accepted (safety only)"},
